@@ -172,15 +172,56 @@ def t_merge_lines(E, n, cr):
                 'each delivered line is tokenised and (when it starts with a line number) stored')
 
 
+def t_read_line(E, n, ending):
+    """TextFile.read_line (ASCII LOAD / MERGE read program lines through it): a line of up to 255 characters
+    ended by CR comes back whole with its CR (255 is the longest line that can be entered); 256 or more
+    characters come back as the first 255 without a line end (-> Line buffer overflow in merge)."""
+    from pcbasic.basic.devices import diskfiles
+    chars = [E.int('c[%d]' % i, 32, 126) for i in range(n)]
+    data = chars + ([13] if ending == 'cr' else ([13, 10] if ending == 'crlf' else []))
+    class _File(object):
+        _pyvc_trusted = True
+        def __init__(self):
+            self.pos = 0
+            self._previous = b''
+        def read_one(self):
+            if self.pos >= len(data):
+                return b''
+            c = data[self.pos]
+            self.pos += 1
+            out = SBuf([c], 'bytes') if not isinstance(c, int) else bytes([c])
+            return out
+        def peek(self, k):
+            c = data[self.pos:self.pos + k]
+            return bytes(c) if all(isinstance(x, int) for x in c) else SBuf(c, 'bytes')
+    f = _File()
+    r = E.call(diskfiles.TextFile.read_line, f)
+    E.prove(not r.raised, 'never raises')
+    if r.raised:
+        return
+    line, cr = r.value
+    got = list(to_cells(line))
+    if n <= 255:
+        E.prove(len(got) == n and (n == 0 or bool(cells_equal(got, chars))), 'a line of up to 255 characters comes back whole')
+        if ending == 'eof':
+            E.prove(not cr, 'end of file: no line end')
+        else:
+            E.prove(cr == b'\r', 'with its line end')
+    else:
+        E.prove(len(got) == 255 and bool(cells_equal(got, chars[:255])), 'a longer line is cut after 255 characters')
+        E.prove(cr is None, 'and reported without a line end')
+
+
 TASKS = [
-    Task('converter.protect/unprotect', t_cipher_roundtrip,
+    Task('converter.protect/unprotect', t_cipher_roundtrip, max_seconds=240,
          cases=[{'n': n, 'first': f} for n in (0, 1, 2, 142, 143, 144, 145, 290, 600) for f in ('protect', 'unprotect')]),
     Task('converter.protect/unprotect (long streams)', t_cipher_roundtrip, tier='thorough',
          cases=[{'n': n, 'first': f} for n in (511, 512, 513, 1024, 1200, 4200) for f in ('protect', 'unprotect')]),
-    Task('Program.save/load', t_save_load, cases=[{'mode': m, 'n': n} for m in (b'P', b'B') for n in (2, 3, 40, 150)]),
-    Task('Program.save (protected program)', t_protected_save, cases=[{'mode': m} for m in (b'P', b'B', b'A')]),
+    Task('Program.save/load', t_save_load, max_seconds=300, cases=[{'mode': m, 'n': n} for m in (b'P', b'B') for n in (2, 3, 40, 150)]),
+    Task('Program.save (protected program)', t_protected_save, max_seconds=300, cases=[{'mode': m} for m in (b'P', b'B', b'A')]),
     Task('Program.merge (delivered lines)', t_merge_lines,
          cases=[{'n': n, 'cr': c} for n in (0, 4, 254, 255, 256, 300) for c in (b'\r', None)]),
+    Task('TextFile.read_line', t_read_line, cases=[{'n': n, 'ending': e} for n in (0, 1, 254, 255, 256, 300) for e in ('cr', 'crlf', 'eof')]),
 ]
 
 ASSUMPTIONS = [
